@@ -128,18 +128,19 @@ theorem tick_execute_phase_under_lock :
     (OPM.Gen.LockTable.tickCalls.dropWhile (fun c => !c.2)).all (·.2) = true := by decide
 
 /-- The places inside the sub-calls where a tick spends its time — the hardware read, a UOD command's exec function,
-the hardware write — are located in the source (`read_process_image`, `CommandManager.tick` …, `write_process_image`). -/
+the assembly of the output image register by register, the hardware write — are located in the source (`read_process_image`, `CommandManager.tick` …, `write_process_image`). -/
 theorem nested_yield_points :
     OPM.Gen.LockTable.nested =
       [("hwl.read_batch", "read_process_image"), ("hwl.write_batch", "write_process_image"),
-       ("uod.execute", "command_manager.tick"), ("interp.subtick", "interpreter.tick")] := by decide
+       ("write.reg", "write_process_image"), ("uod.execute", "command_manager.tick"),
+       ("interp.subtick", "interpreter.tick")] := by decide
 
 /-- **The extent of the lock**: the command phase (with every UOD exec function it runs), the notification of tag
 changes and the write phase (with the hardware write) are under the tick's lock — a request that arrives while the
 tick is there waits for the end of the tick. -/
 theorem command_and_write_phase_under_lock :
     ["tracking.tick", "interpreter.tick", "update_calculated_tags", "command_manager.tick", "uod.execute",
-     "notify_tag_updates", "write_process_image", "hwl.write_batch"].all
+     "notify_tag_updates", "write_process_image", "write.reg", "hwl.write_batch"].all
       (fun l => tickFlag OPM.Gen.LockTable.tickCalls OPM.Gen.LockTable.nested l == some true) = true := by decide
 
 /-- The request entry points the message handlers call include the five known ones (a new entry point is welcome —
